@@ -163,7 +163,8 @@ func (m *M) learnPW(p string) {
 		}
 	}
 	m.pwCands = append(m.pwCands, p)
-	if p != "" {
+	// (a stored hash replayed as a password is not a secret the user holds)
+	if p != "" && !strings.HasPrefix(p, "$2a$") {
 		m.Secrets[p] = "password"
 	}
 }
